@@ -1,4 +1,5 @@
 import OdcGeo.Model.C11
+import OdcGeo.Model.C11Glue
 namespace OdcGeo.C11.Drv
 open OdcGeo OdcGeo.IO OdcGeo.C11
 
@@ -72,6 +73,14 @@ def run (args : List String) : Option String :=
     let mode ← parseMode? mode; let shape ← parseShape? shape; let tight ← parseBool? tight
     let anchor ← parseAnchor? anchor; let tol ← parseRat? tol; let rnd ← parseRnd? rnd
     pure (fmtRes fmtOut (computeOutput ⟨sc, su, sr, bb, cp, fs⟩ mode shape tight anchor tol rnd))
+  | ["outany", gb, sc, su, sr, bb, cp, fs, mode, shape, tight, anchor, tol, rnd] => do
+    -- compute_output_geobox for a GeoBox (gb = T) or a GCPGeoBox (gb = F) source
+    let gb ← parseBool? gb
+    let sc ← parseBool? sc; let su ← parseBool? su
+    let sr ← parsePair? sr; let bb ← parseBBox? bb; let cp ← parsePair? cp; let fs ← parsePair? fs
+    let mode ← parseMode? mode; let shape ← parseShape? shape; let tight ← parseBool? tight
+    let anchor ← parseAnchor? anchor; let tol ← parseRat? tol; let rnd ← parseRnd? rnd
+    pure (fmtRes fmtOut (computeOutputAny gb ⟨sc, su, sr, bb, cp, fs⟩ mode shape tight anchor tol rnd))
   | ["snap", x0, x1, res, off, tol] => do
     let x0 ← parseRat? x0; let x1 ← parseRat? x1; let res ← parseRat? res
     let off ← parseOpt? parseRat? off; let tol ← parseRat? tol
@@ -98,6 +107,38 @@ def run (args : List String) : Option String :=
     let cands ← parseList? parseCand? cands
     let big ← parseBool? big
     pure (fmtRes (fun (n : Nat) => toString n) (pickBest cands big))
+  | ["utmarg", kind, a, b] => do
+    -- CRS.utm(<arg>): the box handed to the database query.  kind: bbox | geomcrs | geom | num | numy | xy
+    let arg ← (match kind with
+      | "bbox" => (parseBBox? a).map UtmArg.bbox
+      | "geomcrs" => do let x ← parseBBox? a; let y ← parseBBox? b; pure (UtmArg.geom true x y)
+      | "geom" => do let x ← parseBBox? a; let y ← parseBBox? b; pure (UtmArg.geom false x y)
+      | "num" => (parseRat? a).map (fun x => UtmArg.num x none)
+      | "numy" => do let x ← parseRat? a; let y ← parseRat? b; pure (UtmArg.num x (some y))
+      | "xy" => do let x ← parseRat? a; let y ← parseRat? b; pure (UtmArg.xy x y)
+      | _ => none)
+    let bb := utmBBox arg
+    pure (",".intercalate ([bb.left, bb.bottom, bb.right, bb.top].map fmtRat))
+  | ["normcrs", kind, raw, parsed, ctx, orerr] => do
+    -- norm_crs / norm_crs_or_error.  kind: obj | none | unset | str | other ; parsed: N | epsg
+    let parsed ← parseOpt? parseNat? parsed
+    let ctx ← parseBool? ctx
+    let orerr ← parseBool? orerr
+    let arg ← (match kind with
+      | "obj" => parsed.map CrsArg.obj
+      | "none" => some CrsArg.none
+      | "unset" => some CrsArg.unset
+      | "str" => some (CrsArg.str raw parsed)
+      | "other" => some (CrsArg.other parsed)
+      | _ => none)
+    let r := if orerr then normCrsOrError arg ctx else normCrsArg arg ctx
+    pure (fmtRes (fun (n : NormCrs) => match n with
+      | .none => "none"
+      | .crs i => s!"crs:{i}"
+      | .utm _ => "utm") r)
+  | ["cpres", bb] => do
+    let bb ← parseBBox? bb
+    pure (fmtRes (fun (p : Rat × Rat) => s!"{fmtRat p.1},{fmtRat p.2}") (cpResOf bb))
   | ["round", x] => do
     let x ← parseRat? x
     pure (fmtRat (roundHalfEven x))
